@@ -249,8 +249,29 @@ pub fn run_history(case: &UCase) -> (CaseOut, CaseOut) {
                     ok = false;
                     break;
                 }
-                match crate::drive::catch(|| wc.table.relate(I, &db, &env, Variance::Covariant, &x, &y)) {
+                // the pair itself is related covariantly (this runs the generalisation step); the Subtype goals it leaves
+                // behind are between lifetime-free types, where subtyping is equality, and are closed invariantly (a
+                // covariant relate of two unbound variables would only hand the same goal back)
+                let variance = if rounds == 1 { Variance::Covariant } else { Variance::Invariant };
+                match crate::drive::catch(|| wc.table.relate(I, &db, &env, variance, &x, &y)) {
                     Ok(Ok(r)) => {
+                        if rounds == 1 {
+                            // universe soundness of the intermediate state (the Subtype goals are still open, a caller may
+                            // unify other things first): no variable may be bound to a value that mentions a variable of
+                            // a higher universe than its own
+                            let (dbg, tys, kinds) = wc.chalk_state();
+                            for (v, ty) in tys.iter().enumerate().take(case.vars.len()) {
+                                let mut cvs = vec![];
+                                collect_cvars(ty, &mut cvs);
+                                if matches!(ty, MTy::CVar(_)) {
+                                    continue; // unbound (or an alias of another variable: its class keeps the minimum)
+                                }
+                                if let Some(bad) = cvs.iter().find(|c| kinds[**c].0 == Kind::General && kinds[**c].1 > case.vars[v].1) {
+                                    o14.fail("covariant-binds-variable-to-higher-universe", show(a, b, format!("after relate(Covariant): variable #{} of universe U{} is bound to a value mentioning residual variable ^{} of universe U{}\nraw: {}", v, case.vars[v].1, bad, kinds[*bad].1, dbg)));
+                                    break;
+                                }
+                            }
+                        }
                         for g in r.goals {
                             if let GoalData::SubtypeGoal(s) = g.goal.data(I) {
                                 pending.push((s.a.clone(), s.b.clone()));
@@ -270,16 +291,35 @@ pub fn run_history(case: &UCase) -> (CaseOut, CaseOut) {
                 }
             }
             if ok {
-                let (_, ctys2, _) = wc.chalk_state();
-                let (cn2, _) = renumber(&ctys2);
+                let (_, ctys2, ckinds2) = wc.chalk_state();
+                let (cn2, cmap2) = renumber(&ctys2);
                 if cn2 != cnorm {
                     o14.fail("covariant-state-differs", show(a, b, format!("lifetime-free pair: state after covariant relate {:?} differs from invariant {:?}", cn2, cnorm)));
+                } else {
+                    // ... including kinds and universes of the residual variables (the generalisation step of a
+                    // non-invariant relate creates fresh variables; they must live where the invariant result puts them)
+                    for (i, (c2, c1)) in cmap2.iter().zip(&cmap).enumerate() {
+                        let ((k2, u2), (k1, u1)) = (ckinds2[c2.1], ckinds[c1.1]);
+                        if k1 == Kind::General && (k2 != k1 || u2 != u1) {
+                            o14.fail("covariant-residual-variable-differs", show(a, b, format!("lifetime-free pair, residual variable #{}: {:?} in U{} after covariant relate, {:?} in U{} after invariant relate", i, k2, u2, k1, u1)));
+                            break;
+                        }
+                    }
                 }
                 o14.bump("covariant_checked");
             }
         }
     }
     (o14, o15)
+}
+
+fn collect_cvars(t: &MTy, out: &mut Vec<usize>) {
+    match t {
+        MTy::CVar(i) => out.push(*i),
+        MTy::Adt(_, a) | MTy::Tuple(a) => a.iter().for_each(|x| collect_cvars(x, out)),
+        MTy::Slice(x) | MTy::Ref(_, _, x) | MTy::Raw(_, x) => collect_cvars(x, out),
+        _ => {}
+    }
 }
 
 pub struct C14;
